@@ -419,6 +419,22 @@ def run(tier, seed):
     run.add_tlc(r, "MC_PartsGen definitions")
     jobs += [{"qs": c["q"].strip()} for c in cs]
     jobs += [{"qs": q} for q in DURATIONS + SUBSTANCES]
+    # names that read two ways as prefix + unit (d+au / da+u ...): the unit named in the reply must be the one the number
+    # was computed for, whichever reading Rink takes
+    unitnames = set(u["s"] for u in dump["units"]) | set(numkit.txt(b) for b in dump["base"])
+    readings = {}
+    for p in prefixes:
+        for u in unitnames:
+            if NAME_RE.match(u):
+                readings.setdefault(p + u, []).append((p, u))
+    amb = sorted(n for n, r in readings.items() if len(r) >= 2 and n not in unitnames)
+    for n in amb:
+        for (p, u) in readings[n]:
+            jobs.append({"qs": "1 %s -> %s" % (u, n), "srcq": "1 %s" % u})
+            jobs.append({"qs": "3 %s%s -> %s" % (p, u, n), "srcq": "3 %s%s" % (p, u)})
+        jobs.append({"qs": "2 %s -> %s" % (n, n), "srcq": "2 %s" % n})
+        jobs.append({"qs": "5 %s" % n})
+    run.note("names_with_two_prefix_readings", amb[:40])
     decide(run, jobs, "conv", shards, lookups, quant_path, stats)
     run.sample({"leg": "conv", "q": jobs[0]["qs"]})
     run.sample({"leg": "conv", "q": jobs[len(jobs) // 2]["qs"]})
